@@ -441,14 +441,14 @@ pub fn check(tier: Tier) -> Check {
             "deadline bound = 512 s back-off slot + initial round (2.5 s + 0.5 s per contact) + 160 x 0.5 s bucket rounds, rounded up to 660 s + 0.5 s x contacts",
         ],
         deciding: vec!["C15"],
-        streams: vec![Stream::new("bootstrap", tier.pick(1200, 20_000), scenario)],
+        streams: vec![Stream::new("bootstrap", tier.pick(3_600, 20_000), scenario)],
         require: vec![
-            ("waiters", tier.pick(5_000, 80_000)),
-            ("plain_node_configs_with_deadline", tier.pick(300, 5_000)),
-            ("configs_without_contacts", tier.pick(40, 600)),
+            ("waiters", tier.pick(15_000, 80_000)),
+            ("plain_node_configs_with_deadline", tier.pick(900, 5_000)),
+            ("configs_without_contacts", tier.pick(120, 600)),
             ("configs_with_node_router_overlap", tier.pick(0, 0)),
-            ("api_liveness_probes", tier.pick(4_000, 80_000)),
-            ("api_calls_racing_deliveries", tier.pick(20_000, 400_000)),
+            ("api_liveness_probes", tier.pick(12_000, 80_000)),
+            ("api_calls_racing_deliveries", tier.pick(60_000, 400_000)),
         ],
         exhaustive: false,
     }
